@@ -49,6 +49,8 @@ class Units:
 
     # -- environment ---------------------------------------------------------------------------
     def set(self, lid, u):
+        if self.env.get(("counter", lid)):
+            return
         self.env[lid] = join(self.env.get(lid, BOT), u)
 
     def _bind_params(self):
@@ -397,6 +399,22 @@ class Units:
                     self.bind_pat(n["pat"], [BB, TOP])
                 else:
                     self.bind_pat(n["pat"], TOP)
+                if src.get("k") == "mcall" and src["name"] in ("char_indices", "chars"):
+                    # counter idiom: `let mut x = 0; for .. in s.char_indices() { ..; x += 1; }` with `x += 1` a top-level statement
+                    # of the loop body and no other modification of x anywhere -> character count
+                    body = n["body"]
+                    blk = body["block"] if body.get("k") == "blockexpr" else body
+                    top = [T.peel(st["e"]) for st in blk.get("stmts", []) if st["k"] == "expr"]
+                    for t_ in top:
+                        if t_.get("k") == "assign_op" and t_["op"].startswith("+") and T.lit_value(t_["r"]) == 1:
+                            lid = T.local_of(t_["l"])
+                            if lid is None:
+                                continue
+                            mods = [x for x in T.nodes(self.body["tree"]) if x.get("k") in ("assign", "assign_op") and T.local_of(x["l"]) == lid]
+                            inits = [s_ for s_ in T.nodes(self.body["tree"], "let") if s_["pat"]["p"] == "bind" and s_["pat"]["id"] == lid]
+                            if len(mods) == 1 and len(inits) == 1 and inits[0].get("init") is not None and T.lit_value(inits[0]["init"]) == 0:
+                                self.env[lid] = CH
+                                self.env[("counter", lid)] = True
             elif k == "match":
                 su = self.item_units(n["scrut"]) or self.unit(n["scrut"])
                 for a in n["arms"]:
